@@ -121,13 +121,59 @@ def normalize(lf, kind):
     return LinForm({v: c // g for v, c in lf.terms.items()}, kk)
 
 
+class LeSet:
+    """set of constraints  L + c <= 0  keeping, per linear part L, only the tightest constant"""
+    __slots__ = ("d",)
+
+    def __init__(self, items=None):
+        self.d = {}
+        if items is not None:
+            if isinstance(items, LeSet):
+                self.d = dict(items.d)
+            else:
+                for x in items:
+                    self.add(x)
+
+    @staticmethod
+    def _key(lf):
+        return frozenset(lf.terms.items())
+
+    def add(self, lf):
+        k = self._key(lf)
+        old = self.d.get(k)
+        if old is None or lf.const > old.const:
+            self.d[k] = lf
+
+    def discard(self, lf):
+        k = self._key(lf)
+        old = self.d.get(k)
+        if old is not None and old.const == lf.const:
+            del self.d[k]
+
+    def remove_key(self, lf):
+        self.d.pop(self._key(lf), None)
+
+    def __contains__(self, lf):
+        old = self.d.get(self._key(lf))
+        return old is not None and old.const >= lf.const
+
+    def __iter__(self):
+        return iter(list(self.d.values()))
+
+    def __len__(self):
+        return len(self.d)
+
+    def __bool__(self):
+        return bool(self.d)
+
+
 class Cons:
     """immutable-ish set of constraints"""
 
     __slots__ = ("le", "eq")
 
     def __init__(self, le=None, eq=None):
-        self.le = set(le) if le else set()
+        self.le = LeSet(le)
         self.eq = set(eq) if eq else set()
 
     def copy(self):
@@ -173,7 +219,7 @@ class Cons:
         return False
 
     # -- elimination ------------------------------------------------------------
-    def eliminate(self, var, bounds=None):
+    def eliminate(self, var, bounds=None, keep_bounds=False):
         """project out `var`.  bounds: optional (lo, hi) interval of var, used as extra constraints"""
         eqs = [c for c in self.eq if var in c.terms]
         if eqs:
@@ -182,8 +228,15 @@ class Cons:
             e = eqs[0]
             a = e.terms[var]
             rest = LinForm({v: c for v, c in e.terms.items() if v != var}, e.const)
+            if keep_bounds and bounds is not None and abs(a) == 1 and len(rest.terms) >= 2:
+                sol = (-rest) if a == 1 else rest       # var == sol
+                lo, hi = bounds
+                if lo is not None and lo > -(1 << 62):
+                    self.le.add(normalize(LinForm.constant(lo) - sol, "le"))
+                if hi is not None and hi < (1 << 62):
+                    self.le.add(normalize(sol - hi, "le"))
             # a*var + rest = 0  ->  var = -rest/a
-            new_le = set()
+            new_le = LeSet()
             for c in self.le:
                 if var in c.terms:
                     k = c.terms[var]
@@ -220,7 +273,7 @@ class Cons:
             return
         ups = []   # coefficient > 0 :  a*var + p <= 0   (upper bounds on var)
         los = []   # coefficient < 0
-        keep = set()
+        keep = LeSet()
         for c in self.le:
             k = c.terms.get(var)
             if k is None:
@@ -323,7 +376,7 @@ class Cons:
         return True
 
     def key(self):
-        return (frozenset(self.le), frozenset(self.eq))
+        return (frozenset(self.le.d.values()), frozenset(self.eq))
 
 
 def sup(lf, bounds_of):
@@ -411,6 +464,25 @@ def fm_infeasible(cons):
     return False
 
 
+RELAX_LIMIT = 1 << 40
+
+
+def _relaxed(c, other, bounds_other):
+    """weakest-constant variant of c (same linear part) that `other` satisfies, if it is not hopelessly slack"""
+    lin = LinForm(c.terms, 0)
+    k = None
+    same = other.le.d.get(LeSet._key(c))
+    if same is not None:
+        k = same.const
+    s = sup(lin, bounds_other)
+    if s is not None and abs(s) <= RELAX_LIMIT:
+        k = -s if k is None else max(k, -s)
+    if k is None:
+        return None
+    k = min(k, c.const)
+    return LinForm(c.terms, k)
+
+
 def join_cons(a, b, bounds_a, bounds_b, candidates_extra=()):
     """constraints holding in both: those of a entailed by b and vice versa"""
     out = Cons()
@@ -435,11 +507,19 @@ def join_cons(a, b, bounds_a, bounds_b, candidates_extra=()):
     for c in a.le:
         if c in b.le or b.entails_le(c, bounds_b):
             out.le.add(c)
+        else:
+            r = _relaxed(c, b, bounds_b)
+            if r is not None:
+                out.le.add(r)
     for c in b.le:
         if c in out.le:
             continue
         if a.entails_le(c, bounds_a):
             out.le.add(c)
+        else:
+            r = _relaxed(c, a, bounds_a)
+            if r is not None:
+                out.le.add(r)
     for c in candidates_extra:
         if c in out.le:
             continue
